@@ -345,6 +345,6 @@ func ruleStoreAtomicity(c *Ctx) {
 		// database creation: check-then-create
 	}
 	c.count("example-handlers", nh)
-	c.floor("example-handlers", 30)
+	c.floor("example-handlers", 24)
 	c.count("multi-step-handler-paths", nsig)
 }
